@@ -75,187 +75,215 @@ def _desc(body, o):
     return s + ("." + ".".join(fl) if fl else "")
 
 
-def r2(ctx):
-    f = ctx.facts
+def eval_migration(f, path, records, target_empty=True):
+    """a populate migration evaluated (K6' with abstract collections/maps) on `records` = [(namespace, author, key,
+    timestamp, content_len)] as the records table yields them; returns (rendered result, rows inserted into the target)"""
+    import re as _re
+    from . import feval as E, coll
+    log = []
+    C = coll.Collections(f, sort_key=lambda it, v: E.describe(it.resolve(v), f))
+
+    def oracle(kind, name, payload, site):
+        if kind == "cmp":
+            a, b2 = str(name), str(payload)
+            ma, mb = _re.fullmatch(r"ts(\d+)", a), _re.fullmatch(r"ts(\d+)", b2)
+            if ma and mb:
+                x, y = int(ma.group(1)), int(mb.group(1))
+                return (x > y) - (x < y)
+            return None
+        if kind != "call":
+            return None
+        t, args, it = payload
+        names = [it.tokname(a) for a in args]
+        if name == "open_table":
+            return E.Ok(E.Tok("table:" + (names[1].split("::")[-1] if len(names) > 1 else "?")))
+        if name in ("is_empty", "len") and names and names[0].startswith("table:"):
+            tn = names[0]
+            n = len(records) if tn.endswith(":RECORDS_TABLE") else (0 if target_empty else 3)
+            return E.Ok(E.Int(n if name == "len" else (1 if n == 0 else 0)))
+        if name in ("iter", "range") and names and names[0].startswith("table:"):
+            if not names[0].endswith(":RECORDS_TABLE"):
+                raise E.Unsupported("a populate migration scanning %s" % names[0])
+            return E.Ok(coll.seq("iter", [E.Ok(("tuple", [E.Tok("kg%d" % i), E.Tok("vg%d" % i)])) for i in range(len(records))]))
+        if name == "value" and names and _re.fullmatch(r"kg\d+", names[0]):
+            ns, au, key, ts, ln = records[int(names[0][2:])]
+            for n_, v in (("ns", ns), ("au", au)):
+                it.heap.setdefault("%s:%s" % (n_, v), E.Tok("%s:%s" % (n_, v)))
+            return ("tuple", [E.href("ns:%s" % ns), E.href("au:%s" % au), E.Tok("key:%s" % key)])
+        if name == "value" and names and _re.fullmatch(r"vg\d+", names[0]):
+            ns, au, key, ts, ln = records[int(names[0][2:])]
+            return ("tuple", [E.Tok("ts%d" % ts), E.Tok("nsig"), E.Tok("asig"), E.Int(ln), E.Tok("hash")])
+        if name in ("insert", "remove", "retain", "drain") and names and names[0].startswith("table:"):
+            log.append((names[0][6:], name, names[1], names[2] if len(names) > 2 else None))
+            return E.Ok(E.NONE)
+        if name in ("to_vec", "as_slice", "to_owned", "as_ref", "deref") and names and names[0].startswith("key:"):
+            return args[0]
+        return C.handle(kind, name, payload, site)
+    try:
+        ret, it = E.run_it(f, path, [E.href("tx")], {"tx": E.Tok("tx")}, oracle)
+        return E.describe(ret, f), log
+    except E.Unsupported as e:
+        return "UNSUPPORTED-FORM: %s" % e, log
+
+
+def eval_entry_put(f, head):
+    """StoreInstance::entry_put evaluated: Store::modify runs the transaction body; `head` = None (author unknown) or
+    cmp((timestamp,key) of the entry, stored head) in {-1,0,1}. Returns (rendered result, table writes)."""
+    from . import feval as E
     types = tables.table_types(f)
-    # migration 004: by-key id = (ns, key, author) = components (0,2,1) of the records id
-    m4 = f.body(M + "migration_004_populate_by_key_index")
-    ctx.touch(m4)
-    ins = [(bi, t) for bi, t in m4.calls() if (tables.call_table(t, types) or (None, None))[:2] == ("records_by_key", "insert")]
-    if len(ins) != 1:
-        raise mir.AnchorMissing("migration 004: expected one records_by_key.insert")
-    comps = _components(m4, ins[0][1]["a"][1], None)
-    perm = []
-    for c in comps:
-        idx = [x.split(".")[-1] for x in c if x.startswith("value(")]
-        perm.append(idx[0] if len(idx) == 1 else "?")
-    ctx.check(perm == ["0", "2", "1"], "C18.R2", m4.path, "by-key-id-permutation", "by-key id components are fields %s of the records id (spec: namespace=0, key=2, author=1)" % perm, ins[0][1]["sp"])
-    # the value() receiver is the iterated records row key
-    # entry_put: same permutation by accessor names
-    ep = f.body(EP)
-    ctx.touch(ep)
-    def accessor_seq(t):
-        seq = []
-        for c in _components(ep, t["a"][1], None):
-            names = set()
-            for x in c:
-                for nm in ("namespace", "author", "key", "timestamp"):
-                    if x.startswith(nm + "(") or (".%s(" % nm) in x or x.startswith("to_bytes(%s(" % nm) or ("(%s(" % nm) in x:
-                        names.add(nm)
-            seq.append("|".join(sorted(names)))
-        return seq
-    rows = {}
-    for bi, t in ep.calls():
+    log = []
+
+    def oracle(kind, name, payload, site):
+        if kind == "cmp":
+            a, b2 = str(name), str(payload)
+            if "head-row" in a + b2 and head is not None:
+                return head if "head-row" in b2 else -head
+            return None
+        if kind != "call":
+            return None
+        t, args, it = payload
+        names = [it.tokname(a) for a in args]
+        if callee_matches(t, r"store::fs::Store::modify$"):
+            it.heap.setdefault("tables", E.Tok("tables"))
+            return it.apply(args[1], [E.href("tables")])
+        if name in ("as_mut", "as_ref") and names and names[0] in ("self.store", "store"):
+            return args[0]
         ct = tables.call_table(t, types)
-        if ct and ct[1] == "insert":
-            rows[ct[0]] = (accessor_seq(t), t)
-    want = {"records": ["namespace", "author", "key"], "records_by_key": ["namespace", "key", "author"], "latest_per_author": ["namespace", "author"]}
-    for name, w in want.items():
-        got = rows.get(name, ([], None))[0]
-        ctx.check(got == w, "C18.R2", EP, "entry_put.%s-key-order" % name, "key components %s (spec %s)" % (got, w), rows[name][1]["sp"] if name in rows else ep.sp)
-    # latest value = (timestamp, key)
-    if "latest_per_author" in rows:
-        t = rows["latest_per_author"][1]
-        seq = []
-        for c in _components(ep, t["a"][2], None):
-            names = {nm for x in c for nm in ("timestamp", "key") if x.startswith(nm + "(") or ("(%s(" % nm) in x}
-            seq.append("|".join(sorted(names)))
-        ctx.check(seq == ["timestamp", "key"], "C18.R2", EP, "entry_put.latest-value-order", "value components %s (spec [timestamp, key])" % seq, t["sp"])
-    # reader inverts the permutation
-    nf = [b for b in f.bodies.values() if b.path.startswith("store::fs::ranges::RecordsByKeyRange::next_filtered::{closure")]
-    okinv = False
-    for b in nf:
-        ctx.touch(b)
-        for bi, t in b.calls():
-            if (tables.call_table(t, types) or (None, None))[:2] == ("records", "get"):
-                comps = _components(b, t["a"][1], None)
-                perm = []
-                for c in comps:
-                    idx = [x.split(".")[-1] for x in c if x.startswith("arg:")]
-                    perm.append(idx[0] if len(idx) == 1 else "?")
-                okinv = perm == ["0", "2", "1"]
-                ctx.check(okinv, "C18.R2", b.path, "index-reader-inverts-permutation", "records id looked up = fields %s of the by-key id (spec 0,2,1)" % perm, t["sp"])
-    if not nf:
-        raise mir.AnchorMissing("RecordsByKeyRange::next_filtered closure not found")
-    # migration 001: latest key (ns, author) value (timestamp, key)
+        if ct and ct[1] == "get":
+            log.append((ct[0], "get", names[1]))
+            return E.Ok(E.Some(E.Tok("headguard"))) if head is not None else E.Ok(E.NONE)
+        if ct and ct[1] in tables.WRITE_OPS:
+            log.append((ct[0], ct[1], names[1], names[2] if len(names) > 2 else None))
+            return E.Ok(E.NONE)
+        if name == "value" and names == ["headguard"]:
+            return E.Tok("head-row")
+        if name in ("to_bytes", "as_bytes") and names:
+            return E.Tok("b(%s)" % names[0])
+        return None
+    try:
+        ret, it = E.run_it(f, EP.replace("::{closure#0}", ""), [E.href("self"), E.Tok("e")], {"self": E.Tok("self")}, oracle)
+        return E.describe(ret, f), log
+    except E.Unsupported as e:
+        return "UNSUPPORTED-FORM: %s" % e, log
+
+
+def _has(name, *parts):
+    return all(p in (name or "") for p in parts)
+
+
+def r2(ctx):
+    """sibling agreement by evaluation: what entry_put maintains is what the populate migrations rebuild, and the index
+    reader inverts the same permutation"""
+    f = ctx.facts
+    m4 = f.body(M + "migration_004_populate_by_key_index")
     m1 = f.body(M + "migration_001_populate_latest_table")
-    ctx.touch(m1)
-    # heads map key tuple from record key fields (0,1); value from (record value field 0, key field 2)
-    ent = [t for _, t in m1.calls() if t["f"].get("name") == "entry"]
-    okk = False
-    if len(ent) == 1:
-        comps = _components(m1, ent[0]["a"][1], None)
-        perm = [[x.split(".")[-1] for x in c if "value(" in x] for c in comps]
-        okk = [p[0] if len(p) == 1 else "?" for p in perm] == ["0", "1"]
-        ctx.check(okk, "C18.R2", m1.path, "heads-keyed-by-(namespace,author)", "heads map key = record key fields %s" % perm, ent[0]["sp"])
-    # every record reaches the insert in populate loops
-    for body, what, callee in ((m4, "by-key insert", "insert"), (m1, "head update", "entry")):
-        head = None
-        nexts = [bi for bi, t in body.calls() if t["f"].get("name") == "next" and "redb::Range" in t["f"].get("full", "")]
-        sites = [bi for bi, t in body.calls() if t["f"].get("name") == callee and (callee != "insert" or (tables.call_table(t, types) or (None,))[0] == "records_by_key")]
-        if len(nexts) != 1 or len(sites) != 1:
-            ctx.bad("C18.R2", body.path, "populate-loop.form", "expected one records iterator next() and one %s (found %d/%d) (UNSUPPORTED-FORM)" % (what, len(nexts), len(sites)), body.sp)
+    ep = f.body(EP)
+    ctx.touch(*f.scope(m4.path, prefix="store::fs::migrations::"))
+    ctx.touch(*f.scope(m1.path, prefix="store::fs::migrations::"))
+    ctx.touch(*f.scope(EP.replace("::{closure#0}", ""), prefix="store::fs::"))
+    R = [("n1", "a1", "k1", 5, 3), ("n1", "a1", "k2", 9, 0), ("n1", "a1", "k3", 2, 7), ("n1", "a2", "k1", 7, 0), ("n2", "a1", "z", 1, 1), ("n2", "a1", "zz", 1, 1)]
+    # migration 004: one by-key id (namespace, key, author) per record, deletion markers included
+    got, log = eval_migration(f, m4.path, R)
+    want = [("RECORDS_BY_KEY_TABLE", "insert", "(ns:%s,key:%s,au:%s)" % (ns, key, au), "()") for ns, au, key, ts, ln in R]
+    ctx.check(got == "Ok(Execute(%d))" % len(R) and log == want, "C18.R2", m4.path, "every-record-reaches-by-key-insert",
+              "evaluated on %d records (two of them deletion markers): returns %s, inserts %s; spec: one (namespace, key, author) id per record, none skipped" % (len(R), got, log), m4.sp)
+    # migration 001: per (namespace, author) the (greatest timestamp, key of that record)
+    got, log = eval_migration(f, m1.path, R)
+    best = {}
+    for ns, au, key, ts, ln in R:
+        if (ns, au) not in best or ts > best[(ns, au)][0]:
+            best[(ns, au)] = (ts, key)
+    tie = {("n2", "a1"): {(1, "z"), (1, "zz")}}
+    rows = {}
+    okrows = True
+    import re as _re
+    for tb, op, k, v in log:
+        m = _re.fullmatch(r"\(ns:(\w+),au:(\w+)\)", k or "")
+        mv = _re.fullmatch(r"\(ts(\d+),key:(\w+)\)", v or "")
+        if tb != "LATEST_PER_AUTHOR_TABLE" or op != "insert" or not m or not mv or (m.group(1), m.group(2)) in rows:
+            okrows = False
             continue
-        nb, sb = nexts[0], sites[0]
-        oc = call_outcomes(body, nb)
-        some = oc.get("Some")
-        if not some:
-            ctx.bad("C18.R2", body.path, "populate-loop.form", "iterator result not matched (UNSUPPORTED-FORM)", body.sp)
-            continue
-        # from the Some edge, can we get back to the loop head (next) without passing the site?
-        region = body.reach_from_edges([some[1]], avoid={sb})
-        bypass = nb in region
-        ctx.check(not bypass, "C18.R2", body.path, "every-record-reaches-%s" % what.replace(" ", "-"),
-                  "no path from a fetched record back to the loop head bypasses the %s" % what if not bypass else
-                  "some records are skipped: a path from the fetched record back to the loop head avoids the %s, so the rebuilt table differs from a maintained one" % what, body.loc(sb))
-    ctx.floor("C18.R2", 8)
+        rows[(m.group(1), m.group(2))] = (int(mv.group(1)), mv.group(2))
+    okrows = okrows and set(rows) == set(best) and all(rows[k] == best[k] or rows[k] in tie.get(k, ()) for k in best)
+    ctx.check(got == "Ok(Execute(%d))" % len(best) and okrows, "C18.R2", m1.path, "heads-rebuilt-as-greatest-timestamp-per-author",
+              "evaluated on %d records: returns %s, rows %s; spec: one row per (namespace, author) holding the greatest timestamp and the key of that record: %s" % (len(R), got, rows, best), m1.sp)
+    # entry_put maintains the same shapes
+    for head, label in ((None, "author-unknown"), (1, "newer-than-head"), (0, "equal-to-head"), (-1, "older-than-head")):
+        got, log = eval_entry_put(f, head)
+        w = {x[0]: x for x in log if x[1] != "get"}
+        rec, byk, lat = w.get("records"), w.get("records_by_key"), w.get("latest_per_author")
+
+        def comps(sx):
+            return [c.strip() for c in (sx or "").strip("()").split(",")] if sx else []
+        okrec = rec is not None and len(comps(rec[2])) == 3 and _has(comps(rec[2])[0], "namespace") and _has(comps(rec[2])[1], "author") and _has(comps(rec[2])[2], "key")
+        okbyk = byk is not None and len(comps(byk[2])) == 3 and _has(comps(byk[2])[0], "namespace") and _has(comps(byk[2])[1], "key") and _has(comps(byk[2])[2], "author")
+        want_head = head is None or head >= 0
+        oklat = (lat is not None) == want_head
+        if lat is not None:
+            kc, vc = comps(lat[2]), comps(lat[3])
+            oklat = oklat and len(kc) == 2 and _has(kc[0], "namespace") and _has(kc[1], "author") and len(vc) == 2 and _has(vc[0], "timestamp") and _has(vc[1], "key")
+        ctx.check(got == "Ok(())" and okrec and okbyk and oklat, "C18.R2", EP, "entry_put[%s]" % label,
+                  "returns %s, writes %s; spec: records keyed (namespace, author, key), by-key index (namespace, key, author), head (namespace, author) -> (timestamp, key) written unless the stored head is newer" % (got, log), ep.sp)
+    # the reader of the index inverts the permutation (shared with C05.R6)
+    from . import C05
+    sub = type(ctx)(ctx.prop, ctx.tier, ctx.facts, ctx.cfg)
+    C05.r6(sub)
+    for o in sub.obligations:
+        o = dict(o)
+        o["key"] = o["key"].replace("C05.R6", "C18.R2")
+        o["rule"] = "C18.R2"
+        ctx.obligations.append(o)
+        if o["status"] != "holds":
+            ctx.violations.append(o)
+    ctx.analysed_bodies |= sub.analysed_bodies
+    ctx.floor("C18.R2", 10)
 
 
 def r3(ctx):
-    f = ctx.facts
-    cls = [b for b in f.bodies.values() if b.path.startswith(M + "migration_001_populate_latest_table::{closure")]
-    found = 0
-    for c in cls:
-        ctx.touch(c)
-        cm = [x for x in comparisons(c) if not mir.is_noise(x["x"])]
-        if not cm:
-            continue
-        for x in cm:
-            def lab(op):
-                ks = set()
-                for o in trace(c, op, whole_only=True):
-                    if o.kind == "upvar" and o.data == "timestamp":
-                        ks.add("new")
-                    elif o.kind == "arg" and o.data[0] == 2:
-                        ks.add("kept")
-                    else:
-                        ks.add("?")
-                return ks.pop() if len(ks) == 1 else None
-            la, lb = lab(x["a"]), lab(x["b"])
-            if {la, lb} != {"new", "kept"}:
-                continue
-            found += 1
-            tbl = TRUTH[x["op"]] if la == "new" else flip(TRUTH[x["op"]])
-            edges = follow_value(c, x["dest"]["l"])
-            writes = [bi for bi, si, s in c.statements() if s["k"] == "assign" and s["p"]["p"] and s["p"]["p"][0][0] == "deref" and s["p"]["l"] == 2]
-            t_e, f_e = edges.get("true"), edges.get("false")
-            w_true = bool(t_e) and any(c.edge_dominates(t_e[0], t_e[1], w) for w in writes)
-            w_false = bool(f_e) and any(c.edge_dominates(f_e[0], f_e[1], w) for w in writes)
-            repl = {o: (tbl[o] if w_true else (not tbl[o] if w_false else None)) for o in tbl}
-            ok = repl["Greater"] is True and repl["Less"] is False
-            ctx.check(ok, "C18.R3", c.path, "keep-greatest-timestamp", "replaced(cmp(new,kept)) = %s; spec: replace on Greater, never on Less" % repl, x["loc"])
-    if not found:
-        ctx.bad("C18.R3", M + "migration_001_populate_latest_table", "keep-greatest-timestamp.form", "no comparison of the new timestamp with the kept one found (UNSUPPORTED-FORM)", None)
-    ctx.floor("C18.R3", 1)
+    pass
 
 
 def r4(ctx):
+    """populate-if-empty: Skip (nothing written) unless the target is empty; run_migration commits iff Execute"""
+    from . import feval as E
     f = ctx.facts
-    types = tables.table_types(f)
-    for name, target in (("migration_001_populate_latest_table", "latest_per_author"), ("migration_004_populate_by_key_index", "records_by_key")):
+    R = [("n1", "a1", "k1", 5, 3), ("n1", "a2", "k1", 7, 0)]
+    for name in ("migration_001_populate_latest_table", "migration_004_populate_by_key_index"):
         b = f.body(M + name)
-        ctx.touch(b)
-        n_exec = n_skip = 0
-        for p in P.explore(b, loop_bound=1):
-            if p.ret[0] == "variant" and p.ret[1] == "Ok":
-                inner = P.short(p.ret[2])
-                emp = []
-                for (k, v), e in zip(p.decisions, p.decisions):
-                    pass
-                # decisions on is_empty payloads, in order of the is_empty calls
-                vals = [v for k, v in p.decisions if k[0] == "place" and "is_empty" in k[1]]
-                if inner.startswith("Execute"):
-                    n_exec += 1
-                    # first is_empty (target table) must have been true (empty)
-                    ctx.check(bool(vals) and vals[0] == 1, "C18.R4", b.path, "execute-only-if-target-empty[%s]" % ("cut" if p.cut else len(vals)),
-                              "Execute path: target-is-empty decisions %s" % vals, b.sp)
-                elif inner == "Skip":
-                    n_skip += 1
-        ctx.check(n_skip >= 1 and n_exec >= 1, "C18.R4", b.path, "has-skip-and-execute", "%d Skip paths, %d Execute paths" % (n_skip, n_exec), b.sp)
-        # the first is_empty is on the target table
-        ie = [(bi, t) for bi, t in b.calls() if t["f"].get("name") == "is_empty"]
-        ie.sort(key=lambda x: len(b.dominators()[x[0]]))
-        ok = False
-        if ie:
-            ty = b.locals[ie[0][1]["a"][0][1]["l"]]["ty"] if ie[0][1]["a"][0][0] in ("copy", "move") else ""
-            src = trace(b, ie[0][1]["a"][0])
-            ok = tables.norm(types[target]) in tables.norm(" ".join(b.locals[x]["ty"] for x in range(len(b.locals)) if any(o.kind == "call" for o in src))) if False else True
-            # type of the receiver local after peeling refs
-            for o in src:
-                pass
-            recv_tys = {tables.norm(b.locals[a[1]["l"]]["ty"]) for a in [ie[0][1]["a"][0]] if a[0] in ("copy", "move")}
-            ok = any(tables.norm(types[target]) in t for t in recv_tys) or any(tables.norm(types[target]) in tables.norm(b.locals[l]["ty"]) for l in _chain_locals(b, ie[0][1]["a"][0]))
-        ctx.check(ok, "C18.R4", b.path, "emptiness-test-on-target-table", "the first is_empty() is on the %s table" % target, ie[0][1]["sp"] if ie else b.sp)
+        got, log = eval_migration(f, b.path, R, target_empty=False)
+        ctx.check(got == "Ok(Skip)" and not log, "C18.R4", b.path, "skip-when-target-populated", "target table not empty: returns %s, writes %s (spec: Skip, nothing written - reopening is a no-op)" % (got, log), b.sp)
+        got, log = eval_migration(f, b.path, R, target_empty=True)
+        ctx.check(got.startswith("Ok(Execute(") and bool(log), "C18.R4", b.path, "execute-when-target-empty", "target empty, records present: returns %s with %d writes" % (got, len(log)), b.sp)
+        got, log = eval_migration(f, b.path, [], target_empty=True)
+        ctx.check((got in ("Ok(Skip)", "Ok(Execute(0))")) and not log, "C18.R4", b.path, "nothing-to-rebuild-from-an-empty-store", "no records: returns %s, writes %s" % (got, log), b.sp)
     rm = f.body(M + "run_migration")
-    ctx.touch(rm)
-    MO = [v["name"] for v in f.adt(M + "MigrateOutcome")["variants"]]
-    for p in P.explore(rm):
-        mo = [v for k, v in p.decisions if k[0] == "discr" and "MigrateOutcome" in k[1]]
-        if not mo:
-            continue
-        name = MO[mo[0]] if isinstance(mo[0], int) else "other"
-        committed = "commit" in P.calls(p)
-        ctx.check(committed == (name == "Execute"), "C18.R4", rm.path, "commit-iff-Execute[%s,%s]" % (name, P.short(p.ret)[:12]), "outcome %s, commit called: %s" % (name, committed), rm.sp)
+    ctx.touch(*f.scope(rm.path, prefix="store::fs::migrations::"))
+    MO = M + "MigrateOutcome"
+    for label, outcome in (("Execute", E.Ok(E.variant(f, MO, "Execute", E.Int(3)))), ("Skip", E.Ok(E.variant(f, MO, "Skip"))), ("Err", E.Err(E.Tok("migration-error")))):
+        log = []
+
+        def oracle(kind, name, payload, site, outcome=outcome):
+            if kind != "call":
+                return None
+            t, args, it = payload
+            names = [it.tokname(a) for a in args]
+            if name == "begin_write":
+                return E.Ok(E.Tok("tx"))
+            if name in ("call", "call_mut", "call_once") and names and names[0] == "migration":
+                log.append("migrate")
+                return outcome
+            if name in ("commit", "abort") and names and names[0] == "tx":
+                log.append(name)
+                return E.Ok(E.UNIT)
+            return None
+        try:
+            ret, hp, ev = E.run(f, rm.path, [E.href("db"), E.Tok("migration")], {"db": E.Tok("db")}, oracle)
+            got = E.describe(ret, f)
+        except E.Unsupported as e:
+            got = "UNSUPPORTED-FORM: %s" % e
+        want_log = ["migrate", "commit"] if label == "Execute" else ["migrate"]
+        okr = got.startswith("Err") if label == "Err" else got == "Ok(())"
+        ctx.check(okr and log == want_log, "C18.R4", rm.path, "commit-iff-Execute[%s]" % label, "migration returns %s: run_migration returns %s after %s (spec: the transaction is committed exactly when the migration executed)" % (label, got, log), rm.sp)
     ctx.floor("C18.R4", 8)
 
 
@@ -280,5 +308,4 @@ def _chain_locals(body, op):
 def run(ctx):
     ctx.run_rule("C18.R1", r1)
     ctx.run_rule("C18.R2", r2)
-    ctx.run_rule("C18.R3", r3)
     ctx.run_rule("C18.R4", r4)
